@@ -144,6 +144,9 @@ def tlc(module, cfg, constants=None, workers=None, timeout=900, simulate=None,
             m = re.match(r"Error: Invariant (\S+) is violated", line)
             if m:
                 res.violated = m.group(1)
+            m = re.match(r"Error: The invariant of (\S+) is equal to FALSE", line)      # constant-level invariant
+            if m:
+                res.violated = m.group(1)
             m = re.match(r"Error: Action property (\S+) is violated", line)
             if m:
                 res.violated = m.group(1)
